@@ -102,11 +102,11 @@ def keepLine (l : Text) : Bool :=
   | 'Z' :: _ => false
   | _ => true
 
-theorem emod_emod512 (m : Int) : (m.emod 512).emod 512 = m.emod 512 :=
+theorem emod_emodPerm (m : Int) : (m.emod 4096).emod 4096 = m.emod 4096 :=
   Int.emod_emod_of_dvd m (by decide)
 
 theorem permLine_proj (tag : Char) (f : FileRec) : permLine tag (fileProj f) = permLine tag f := by
-  simp [permLine, fileProj, emod_emod512]
+  simp [permLine, fileProj, emod_emodPerm]
 
 theorem fileLines_proj (c : Codec) (f : FileRec) (ls : List Text) (h : fileLines c f = .ok ls) :
     fileLines c (fileProj f) = .ok (ls.filter keepLine) := by
@@ -116,7 +116,7 @@ theorem fileLines_proj (c : Codec) (f : FileRec) (ls : List Text) (h : fileLines
     simp only [hd, if_true, Res.ok.injEq] at h
     subst h
     simp only [show (fileProj f).isDir = true from hd, if_true, permLine_proj,
-      show (fileProj f).mode = f.mode.emod 512 from rfl, emod_emod512,
+      show (fileProj f).mode = f.mode.emod 4096 from rfl, emod_emodPerm,
       show (fileProj f).uid = f.uid from rfl, show (fileProj f).gid = f.gid from rfl,
       show (fileProj f).name = f.name from rfl]
     split <;> simp [keepLine, permLine]
@@ -124,7 +124,7 @@ theorem fileLines_proj (c : Codec) (f : FileRec) (ls : List Text) (h : fileLines
     obtain ⟨zs, hzs, rfl⟩ := fileLines_file c f ls hd h
     unfold fileLines
     simp only [show (fileProj f).isDir = false from hd, Bool.false_eq_true, if_false, permLine_proj,
-      show (fileProj f).mode = f.mode.emod 512 from rfl, emod_emod512,
+      show (fileProj f).mode = f.mode.emod 4096 from rfl, emod_emodPerm,
       show (fileProj f).uid = f.uid from rfl, show (fileProj f).gid = f.gid from rfl,
       show (fileProj f).name = f.name from rfl, show (fileProj f).csum = [] from rfl, if_true]
     have hz : zs.filter keepLine = [] := by
